@@ -204,6 +204,11 @@ def step (fields : List String) : String :=
      | some pr => encParsed (parseRequest Generated.waptop Generated.queryPrefix (decBool nv) pr
                     ⟨decBool tls, decStr line, decList rest⟩)
      | none => "bad-proto")
+  | ["parse", p, tls, line, rest, nv, wt] =>      -- with another configured WAP prefix
+    (match protoOfShort p with
+     | some pr => encParsed (parseRequest (decStr wt) Generated.queryPrefix (decBool nv) pr
+                    ⟨decBool tls, decStr line, decList rest⟩)
+     | none => "bad-proto")
   | ["sniff", s] => let (b, r) := sniff (decStr s); encBool b ++ "\t" ++ encStr r
   | ["copyto", n, bs] =>
     let b := decStr bs
